@@ -5,7 +5,7 @@
    Followed by the Receive loop's buffering (Model.RecvMerge).  Tied by recvharness c13 (VerifChannel.ReadChunk on real
    client/server channels, every state, fuzzed frames; model evaluated in Coq on the same bytes). *)
 From Coq Require Import NArith ZArith List Bool.
-From Opcua Require Import Model.RecvBase Model.RecvCrypto Model.RecvMerge.
+From Opcua Require Import Model.RecvBase Model.RecvCrypto Model.RecvMerge Model.RecvChan.
 Import ListNotations.
 Open Scope Z_scope.
 
@@ -15,13 +15,18 @@ Record fstate := { f_mode : smode;
                    f_pnone : bool;                      (* cfg.SecurityPolicyURI == #None *)
                    f_opening : option (option algo);    (* None: openingInstance == nil; Some None: instance whose algo is nil *)
                    f_insts : list (N * list (option algo));   (* instances per channel id, oldest first *)
-                   f_cap : Z }.                         (* capacity of the frame buffer = ReceiveBufSize *)
+                   f_cap : Z;                           (* capacity of the frame buffer = ReceiveBufSize *)
+                   f_last : option N }.                 (* sequence number of the chunk accepted last on this channel *)
 
 Definition E_STATE : N := 3.    (* "invalid state. openingInstance is nil" *)
 Definition E_CERT : N := 4.     (* certificate does not parse / not RSA / Asymmetric() refuses *)
 Definition E_EOF : N := 5.      (* CLO *)
 Definition E_NOINST : N := 6.   (* "unable to find instance for SecureChannelID" *)
 Definition E_SEQ : N := 7.      (* "decode sequence header failed" *)
+Definition E_BADSEQ : N := 8.   (* ua.StatusBadSequenceNumberInvalid: number not greater than the last accepted one *)
+
+Definition with_last (st : fstate) (n : N) : fstate :=
+  {| f_mode := f_mode st; f_pnone := f_pnone st; f_opening := f_opening st; f_insts := f_insts st; f_cap := f_cap st; f_last := Some n |}.
 
 (* SecurityPolicyURI and SenderCertificate of an OPN chunk that decodes *)
 Definition take_bytes (b : bytes) : option (bytes * bytes) :=
@@ -70,14 +75,21 @@ Section Frame.
     | Some (s, r) => match read_u32 r with None => Err E_SEQ | Some (q, r') => Ok (s, q, r') end
     end.
 
+  (* the tail of readChunk: sequence header, then checkSequenceNumber on the verified chunk *)
+  Definition finish (h : chunk_hdr) (st' : fstate) (r : res bytes) : fstate * res chunk :=
+    match bind r seq_decode with
+    | Ok (s, q, rest) =>
+        if seq_ok (f_last st') s then (with_last st' s, Ok (Build_chunk (h_ctype h) s q rest))
+        else (st', Err E_BADSEQ)
+    | Err e => (st', Err e)
+    | Panic p => (st', Panic p)
+    end.
+
   Definition read_frame (st : fstate) (b : bytes) : fstate * res chunk :=
     if f_cap st <? 12 then (st, Panic P_SLICE)              (* b[:hdrlen] beyond the capacity *)
     else match chunk_decode b with
     | None => (st, Err E_DECODE)
     | Some h =>
-        let finish (st' : fstate) (r : res bytes) : fstate * res chunk :=
-          (st', bind r (fun d => bind (seq_decode d) (fun x =>
-                 let '(s, q, rest) := x in Ok (Build_chunk (h_ctype h) s q rest)))) in
         if bytes_eqb (h_type h) MT_OPN then
           match f_opening st with
           | None => (st, Err E_STATE)
@@ -86,14 +98,14 @@ Section Frame.
               | None => (st, Err E_DECODE)
               | Some (uri, cert) =>
                   let st1 := {| f_mode := f_mode st; f_pnone := uri_none uri; f_opening := f_opening st;
-                                f_insts := f_insts st; f_cap := f_cap st |} in
-                  if uri_none uri then finish st1 (vd_with st1 oa h b)
+                                f_insts := f_insts st; f_cap := f_cap st; f_last := f_last st |} in
+                  if uri_none uri then finish h st1 (vd_with st1 oa h b)
                   else match asym_for uri cert with
                        | None => (st1, Err E_CERT)
                        | Some al =>
                            let st2 := {| f_mode := f_mode st; f_pnone := false; f_opening := Some (Some al);
-                                         f_insts := f_insts st; f_cap := f_cap st |} in
-                           finish st2 (vd_with st2 (Some al) h b)
+                                         f_insts := f_insts st; f_cap := f_cap st; f_last := f_last st |} in
+                           finish h st2 (vd_with st2 (Some al) h b)
                        end
               end
           end
@@ -101,7 +113,7 @@ Section Frame.
         else
           match rev (find_insts st (h_chan h)) with
           | [] => (st, Err E_NOINST)
-          | l => finish st (try_insts st l h b (Err E_NOINST))
+          | l => finish h st (try_insts st l h b (Err E_NOINST))
           end
     end.
 
